@@ -10,6 +10,7 @@ import (
 	cparsers "github.com/pip-services3-gox/pip-services3-expressions-gox/calculator/parsers"
 	ctok "github.com/pip-services3-gox/pip-services3-expressions-gox/calculator/tokenizers"
 	"github.com/pip-services3-gox/pip-services3-expressions-gox/csv"
+	sio "github.com/pip-services3-gox/pip-services3-expressions-gox/io"
 	"github.com/pip-services3-gox/pip-services3-expressions-gox/mustache"
 	mparsers "github.com/pip-services3-gox/pip-services3-expressions-gox/mustache/parsers"
 	mtok "github.com/pip-services3-gox/pip-services3-expressions-gox/mustache/tokenizers"
@@ -261,6 +262,32 @@ func (in *instance) step(o Op, sets []VarSet, dry *stepStats) (res string, st st
 		}
 		var toks []*tokenizers.Token
 		sc := NewSimScanner(o.S, eofAt, failAt)
+		if f != nil && dry != nil && (f.Kind == "state_nil" || f.Kind == "state_empty") && len(sc.Content) > 0 {
+			// a caller-supplied tokenizer state that yields nothing for some character: the main
+			// loop's guard has to consume the character itself
+			type stateTable interface {
+				GetCharacterState(rune) tokenizers.ITokenizerState
+				SetCharacterState(rune, rune, tokenizers.ITokenizerState)
+			}
+			if tbl, ok := in.tok.(stateTable); ok {
+				a := f.At
+				if a < 0 {
+					a = -a
+				}
+				ch := sc.Content[a%len(sc.Content)]
+				if ch >= 0 && ch <= 0xfffe {
+					old := tbl.GetCharacterState(ch)
+					fs := &faultyState{empty: f.Kind == "state_empty"}
+					tbl.SetCharacterState(ch, ch, fs)
+					defer func() {
+						tbl.SetCharacterState(ch, ch, old)
+						if fs.calls > 0 {
+							st.fired = f.Kind
+						}
+					}()
+				}
+			}
+		}
 		func() {
 			defer func() { st.scannerCalls = sc.Calls }()
 			switch o.Op {
@@ -449,7 +476,7 @@ func c05GenTask(r *Rand, kind string, faults bool, first, second int) TaskPlan {
 		tp.Sets = []VarSet{defaultTmplSet(), {"name": VStr(""), "a": VStr(""), "b": VStr("B")}}
 	}
 	pool := c05Pool(kind)
-	n := r.Range(2, 12)
+	n := r.Range(2, 8+4*Scale)
 	for i := 0; i < n; i++ {
 		o := Op{Op: "buffer"}
 		if isTokKind(kind) {
@@ -724,4 +751,19 @@ func mustOriginalTokens(text string) []*tokenizers.Token {
 	t.SetSkipEof(true)
 	t.SetDecodeStrings(true)
 	return t.TokenizeBuffer(text)
+}
+
+// faultyState is a caller-supplied tokenizer state that produces no token
+// (nil) or an empty one, without consuming anything.
+type faultyState struct {
+	empty bool
+	calls int
+}
+
+func (f *faultyState) NextToken(scanner sio.IScanner, tokenizer tokenizers.ITokenizer) *tokenizers.Token {
+	f.calls++
+	if f.empty {
+		return tokenizers.NewToken(tokenizers.Word, "", scanner.PeekLine(), scanner.PeekColumn())
+	}
+	return nil
 }
